@@ -185,10 +185,42 @@ def run_case(case):
             return viol('arity/facevar-not-TypeError', 'FaceVariable(mesh, *%d args) on %s: %s %s (documented: TypeError)' % (
                 k, cls, st, (type(val).__name__ + ': ' + str(val)[:80]) if st == 'raise' else 'accepted'), case, key)
         return held(case, key)
+    if kind == 'facevar-form':
+        # every documented FaceVariable form is accepted: a scalar of any real numeric type (python or numpy), one value per
+        # direction as list / tuple / array, three component arrays
+        m, faces = small_mesh(cls, n=case.get('n'))
+        nd = NDIM[cls]
+        what = case['what']
+        scalars = {'pyfloat': 2.5, 'pyint': 3, 'npfloat64': np.float64(2.5), 'npfloat32': np.float32(2.5), 'npfloat16': np.float16(2.5),
+                   'npint64': np.int64(3), 'npint32': np.int32(3), 'npint8': np.int8(3), 'npuint8': np.uint8(3)}
+        if what in scalars:
+            arg, expect = scalars[what], [float(scalars[what])] * nd
+        else:
+            per = [1.5, -2.0, 3.0][:nd]
+            arg = {'list': list(per), 'tuple': tuple(per), 'array': np.array(per), 'intlist': [1, -2, 3][:nd], 'intarray': np.array([1, -2, 3][:nd])}[what]
+            expect = [float(x) for x in (per if not what.startswith('int') else [1, -2, 3][:nd])]
+        st, val = outcome(lambda: pf.FaceVariable(m, arg))
+        if st != 'ok':
+            return viol('valid/facevar-form-rejected', 'FaceVariable(mesh, %s %r) on %s %r raised %s: %s' % (what, arg, cls, list(m.dims), type(val).__name__, str(val)[:120]), case, key)
+        comps = [val._xvalue, val._yvalue, val._zvalue]
+        dims = [int(x) for x in m.dims]
+        for j in range(nd):
+            sh = tuple(d + (1 if i == j else 0) for i, d in enumerate(dims))
+            a = np.asarray(comps[j])
+            if a.shape != sh or not np.all(a.astype(float) == expect[j]):
+                return viol('valid/facevar-form-values', 'FaceVariable(mesh, %s) on %s %r: component %d has shape %r / values %r, expected %r of %r' % (
+                    what, cls, dims, j, a.shape, a.ravel()[:3].tolist(), sh, expect[j]), case, key)
+        for j in range(nd, 3):
+            if np.size(comps[j]):
+                return viol('valid/facevar-form-values', 'FaceVariable on %s has a non-empty component %d' % (cls, j), case, key)
+        return held(case, key)
     if kind == 'bcface':
         what = case['what']
         good = np.array([1.0])
-        vals = {'list': [1.0], 'float': 1.0, 'int': 1, 'none': None, 'tuple': (1.0,), 'str': '1.0'}
+        vals = {'list': [1.0], 'float': 1.0, 'int': 1, 'none': None, 'tuple': (1.0,), 'str': '1.0',
+                # numpy scalars are not arrays either (what arr.mean(), arr[0] or np.float64(x) hand over)
+                'npfloat64': np.float64(1.0), 'npfloat32': np.float32(1.0), 'npint64': np.int64(1), 'npbool': np.bool_(True),
+                'arr.mean()': np.array([1.0, 3.0]).mean(), 'arr[0]': np.array([1.0, 3.0])[0]}
         pos = case['pos']
         args = [good, good, good]
         args[pos] = vals[what]
@@ -313,6 +345,9 @@ def plan(tier, seed):
                 cases.append({'kind': 'arity', 'cls': cls, 'arity': k, 'style': style})
         for k in (0, 2, 4, 5):
             cases.append({'kind': 'facevar-arity', 'cls': cls, 'arity': k})
+        for what in ('pyfloat', 'pyint', 'npfloat64', 'npfloat32', 'npfloat16', 'npint64', 'npint32', 'npint8', 'npuint8', 'list', 'tuple', 'array', 'intlist', 'intarray'):
+            for n in ([1] * nd, [2, 3, 2][:nd]):
+                cases.append({'kind': 'facevar-form', 'cls': cls, 'what': what, 'n': n})
         for what in ('none', 'float', 'int', 'str', 'cellvar', 'facevar', 'list', 'array0d', 'array3d', 'tuple1', 'tuple3',
                      'tuple_swapped', 'tuple_none', 'tuple_mm', 'tuple_vv', 'dict', 'tuple0'):
             cases.append({'kind': 'term', 'cls': cls, 'what': what})
@@ -322,7 +357,7 @@ def plan(tier, seed):
                 continue
             for form in ('faces', 'NL'):
                 cases.append({'kind': 'valid', 'cls': cls, 'n': list(n), 'form': form})
-    for what in ('list', 'float', 'int', 'none', 'tuple', 'str'):
+    for what in ('list', 'float', 'int', 'none', 'tuple', 'str', 'npfloat64', 'npfloat32', 'npint64', 'npbool', 'arr.mean()', 'arr[0]'):
         for pos in range(3):
             cases.append({'kind': 'bcface', 'what': what, 'pos': pos})
     for c in cases:
@@ -334,7 +369,7 @@ def plan(tier, seed):
 def floors(agg, tier):
     out = []
     for k, need in (('req:complabel', 108), ('req:coordlabel', 162), ('req:periodic', 400), ('req:shape', 200),
-                    ('req:arity', 100), ('req:term', 150), ('req:valid', 100), ('req:bcface', 18)):
+                    ('req:arity', 100), ('req:term', 150), ('req:valid', 100), ('req:bcface', 36), ('req:facevar-form', 250)):
         if agg['cov'].get(k, 0) < need:
             out.append('%s < %d' % (k, need))
     return out
